@@ -200,6 +200,25 @@ pub fn unsolved_tokens(events: &[Event], fin: &StageSnapshot) -> std::collection
     res
 }
 
+/// Tokens of child lines whose parent (or a line further up) was voided because all its tokens are verbatim: such child
+/// lines never reach the wrapper.
+pub fn tokens_under_voided_lines(fin: &StageSnapshot) -> std::collections::HashSet<usize> {
+    let mut bad: std::collections::HashSet<usize> = fin.lines.iter().enumerate().filter(|(_, l)| l.line_type == "Voided").map(|(i, _)| i).collect();
+    let mut res = std::collections::HashSet::new();
+    if bad.is_empty() {
+        return res;
+    }
+    for (li, l) in fin.lines.iter().enumerate() {
+        if let Some((pl, _)) = l.parent {
+            if bad.contains(&pl) {
+                bad.insert(li);
+                res.extend(l.tokens.iter().copied());
+            }
+        }
+    }
+    res
+}
+
 /// Where each token of the final table landed in the output.
 #[derive(Debug, Clone)]
 pub struct Span {
@@ -269,7 +288,8 @@ pub fn c08_c09(run: &Run, out: &str, well_formed: bool) -> Vec<Viol> {
     let nl = run.cfg.nl();
     let n = sp.len();
     let unsolved = unsolved_tokens(&run.events, fin);
-    let site = |i: usize| if unsolved.contains(&i) { " [site: line without a wrapping solution]" } else { "" };
+    let orphaned = tokens_under_voided_lines(fin);
+    let site = |i: usize| if unsolved.contains(&i) { " [site: line without a wrapping solution]" } else if orphaned.contains(&i) { " [site: child line of a logical line that is entirely verbatim]" } else { "" };
     for i in 0..n {
         let ignored = fin.fmt[i][0] != 0;
         let ws = &out[sp[i].ws_start..sp[i].start];
